@@ -20,9 +20,23 @@
 #include "config.h"
 #include "ext2fs/ext2_fs.h"
 #include "ext2fs/ext2fs.h"
+/* STUB: ext2fs_get_mem / get_memzero / get_arrayzero / free_mem as called from e2image.c: bump allocation from a static,
+ * zeroed arena with plain pointer assignment (planned hook H3: the library inlines move the pointer with memcpy, which costs
+ * > 10 GB here); nothing is reused, so "zeroed" holds without memset */
+static errcode_t stub_get_mem(unsigned long size, void *ptr);
+static errcode_t stub_get_array(unsigned long count, unsigned long size, void *ptr);
+static errcode_t stub_free_mem(void *ptr);
+#define ext2fs_get_mem stub_get_mem
+#define ext2fs_get_memzero stub_get_mem
+#define ext2fs_get_arrayzero stub_get_array
+#define ext2fs_free_mem stub_free_mem
 #define main vf_real_main
 #include "misc/e2image.c"
 #undef main
+#undef ext2fs_get_mem
+#undef ext2fs_get_memzero
+#undef ext2fs_get_arrayzero
+#undef ext2fs_free_mem
 #include "env.c"
 #ifndef VF_REPLAY
 char *gettext(const char *m) { return (char *) m; }
@@ -38,6 +52,7 @@ char *gettext(const char *m) { return (char *) m; }
 #endif
 #define NW (NCL * CSZ / 8)
 
+static int vf_bad;
 struct vf_in {
 	unsigned int imaged, zero;	/* bit b: block b is in meta_block_map / reads back all-zero */
 };
@@ -47,8 +62,23 @@ VF_DECLARE_INPUT(struct vf_in, IN)
 static unsigned long long vf_word[NW];		/* the image file, 8-byte words in file byte order */
 static unsigned char vf_wcnt[NW], vf_ccnt[NCL];
 static long long vf_pos;
-static int vf_bad, vf_dummy_map, vf_dummy_io;
+static int vf_dummy_map, vf_dummy_io;
 
+static unsigned char vf_arena[2048] __attribute__((aligned(8)));
+static unsigned long vf_brk;
+static errcode_t stub_get_mem(unsigned long size, void *ptr)
+{
+	unsigned long a = (size + 7) & ~7UL;
+	if (vf_brk + a > sizeof(vf_arena)) {
+		vf_bad = 1;
+		return EXT2_ET_NO_MEMORY;
+	}
+	*(void **) ptr = vf_arena + vf_brk;
+	vf_brk += a;
+	return 0;
+}
+static errcode_t stub_get_array(unsigned long count, unsigned long size, void *ptr) { return stub_get_mem(count * size, ptr); }
+static errcode_t stub_free_mem(void *ptr) { *(void **) ptr = NULL; return 0; }
 /* STUB: ext2fs_llseek(): position of the model image file */
 ext2_loff_t ext2fs_llseek(int fd, ext2_loff_t offset, int whence)
 {
